@@ -204,13 +204,14 @@ theorem batch_size_bound (blocks : List (Cid × Bytes))
   · rename_i len hsome
     exact ⟨len, rfl, hbnd len hsome, by simpa using hbnd len hsome⟩
 
-/-- Non-vacuity: a well-formed response of two blocks under the extreme 23-byte prefix; the single
-batch is encoded in 2 + (1 + 1 + 25 + 3) + (1 + 1 + 25 + 4) = 63 bytes and sent. -/
+/-- Non-vacuity: a well-formed response of two blocks under a 22-byte prefix (`u64::MAX` codec and
+hash code, 64-byte digest); the single batch is encoded in 2 + (1 + 1 + 24 + 3) + (1 + 1 + 24 + 4) = 61
+bytes and sent. -/
 example :
     let c : Cid := ⟨1, 2 ^ 64 - 1, 2 ^ 64 - 1, List.replicate 64 0⟩
     (c.version ≤ 1 ∧ c.digest.length ≤ MH_ALLOC) ∧
     (sendResponse wireBlocks Consts.MAX_BATCH_SIZE Consts.MAX_BATCH_BLOCKS Consts.MAX_MESSAGE_SIZE
-      [(c, [1]), (c, [1, 2])]).1.map (fun st => (st.enc, st.sent)) = [(some 63, true)] := by
+      [(c, [1]), (c, [1, 2])]).1.map (fun st => (st.enc, st.sent)) = [(some 61, true)] := by
   decide
 
 /-- **Every fitting block is sent exactly once, in order.** With the node's constants: the messages
